@@ -2149,6 +2149,10 @@ def ob_timer(ctx, tier):
                     ca = [e for e in calls(p, r"Instant::checked_add$") if e.idx > cbs[0].idx]
                     if not ca or ("r%d@Some.0" % ca[-1].idx) not in want or ("r%d@ToDuration.0" % cbs[0].idx) not in repr(ca[-1].args[1]):
                         c.fail("rescheduled_duration_is_not_the_requested_one", p)
+        elif calls(p, r"TimerWheel::insert$"):
+            # round 9 (seed C12-6): re-armed under a FRESH arming identity that the timer does not remember: cancel (disable,
+            # update, remove) can no longer find the entry, which then bounds every later wait and fires after removal
+            c.fail("reschedule_does_not_reuse_own_counter", p)
         else:
             # overflowed ToDuration
             timer = p.frames[0].locals["_1"].value.pointee.value
